@@ -511,13 +511,17 @@ func genPattern(r *Rng, paths []string) (string, string) {
 			cls += "+space"
 		}
 		if r.Chance(5) {
-			switch r.Intn(3) {
+			switch r.Intn(5) {
 			case 0:
 				p = "./" + p
 			case 1:
 				p = strings.Replace(p, "/", "//", 1)
 			case 2:
 				p = p + "/"
+			case 3:
+				p = "/" + p
+			case 4:
+				p = "zz/../" + p
 			}
 			cls += "+unclean"
 		}
